@@ -47,6 +47,10 @@ func (r *Rec) WriteHeader(code int) {
 	if r.OnWriteH != nil {
 		r.OnWriteH(r.NWriteH)
 	}
+	// like net/http (and httptest.ResponseRecorder), refuse codes that are no status codes at all
+	if code < 100 || code > 999 {
+		panic(fmt.Sprintf("invalid WriteHeader code %v", code))
+	}
 	if r.Status != 0 {
 		return
 	}
